@@ -73,7 +73,10 @@ def C(
         values = pandas.Series(
             values.__wrapped__ if isinstance(values, FactorValues) else values
         )
-        values = values.drop(index=values.index[drop_rows])
+        # Drop by position: index labels need not be unique.
+        mask = numpy.ones(len(values), dtype=bool)
+        mask[list(drop_rows)] = False
+        values = values[mask]
         return encode_contrasts(
             values,
             contrasts=contrasts,
